@@ -700,3 +700,201 @@ def examine_low_energy(ctx, batch, case, want, rng, K=250):
     if samples and n <= 16:
         batch.add(lit_energy(inst, L, P, [(b, float(diag[int(b, 2)])) for b in samples[:3]], scale * 1e-9 * max(1, len(terms))), dict(case, bitstrings=samples[:3]))
     return summ
+
+
+# ----------------------------------------------------------------------------- large slack: limits far above the schedules compared
+# Float-resolution bound of this family (stated in the evidence): n_jobs <= 3, limit <= 30, W >= 1/4.  The makespan weights are
+# floats of (J+1)^(end-limit)/J; the smallest one is >= (1/4) * 4^-30 / 3 ~ 7e-20, far above the subnormal range, and every
+# coefficient of the unchanged implementation carries a relative error <= 2^-51.  Energies are evaluated EXACTLY from the
+# float coefficients (integer arithmetic over a common power-of-two denominator), so the only rounding is the implementation's
+# own: relative <= 1e-15 of a feasible state's energy, while two makespan classes differ by a relative >= 1/(J*(J+1)) >= 1/12.
+LARGE_SLACK_NOTE = ("large-slack family: n_jobs <= 3, limit 18..30 (25..60 qubits), W >= 1/4; energies of ALL feasible schedules evaluated exactly "
+                    "(integer arithmetic on the float coefficients of the term list, no to_matrix, no float summation); implementation rounding "
+                    "<= 1e-15 relative to a state's energy vs. relative gap >= 1/(J(J+1)) >= 1/12 between makespan classes; smallest weight >= 7e-20 (no underflow); "
+                    "model comparison: |model energy - implementation energy| <= 1e-9 * energy per sampled state (not relative to the largest coefficient)")
+
+
+def feasible_schedules_dfs(inst, L, cap=8000):
+    """All feasible schedules with every operation inside [0, L] (flat job-major starts), by a depth-first search over the
+    operations in job-major order that only uses the JSSP definition (precedence inside a job, no overlap on a machine).
+    None if there are more than `cap`."""
+    ops = flat_ops(inst)
+    first_of_job = []
+    for j in inst["jobs"]:
+        first_of_job += [True] + [False] * (len(j["ops"]) - 1)
+    out, cur = [], []
+
+    def rec(k):
+        if len(out) > cap:
+            return
+        if k == len(ops):
+            out.append(list(cur))
+            return
+        lo = 0 if first_of_job[k] else cur[k - 1] + ops[k - 1]["dur"]
+        for t in range(lo, L - ops[k]["dur"] + 1):
+            ok = True
+            for a in range(k):
+                if ops[a]["machine"] == ops[k]["machine"] and cur[a] < t + ops[k]["dur"] and t < cur[a] + ops[a]["dur"]:
+                    ok = False
+                    break
+            if ok:
+                cur.append(t)
+                rec(k + 1)
+                cur.pop()
+
+    rec(0)
+    return None if len(out) > cap else out
+
+
+def exact_terms(H):
+    """{bit mask of the qubits carrying Z: Fraction}, every float coefficient taken exactly, like terms merged exactly."""
+    z = H.paulis.z
+    out = {}
+    for row, c in zip(z, H.coeffs):
+        mask = 0
+        for q in row.nonzero()[0]:
+            mask |= 1 << int(q)
+        out[mask] = out.get(mask, Fraction(0)) + Fraction(float(complex(c).real))
+    return out
+
+
+def exact_energies(eterms, n, bit_rows):
+    """Exact eigenvalues (Fractions) on the basis states given as rows of bits (index = qubit)."""
+    import numpy as np
+
+    masks = list(eterms)
+    den = 1
+    for c in eterms.values():
+        if c.denominator > den:
+            den = c.denominator  # all denominators are powers of two
+    ints = np.array([int(eterms[m] * den) for m in masks], dtype=object)
+    Z = np.array([[(m >> q) & 1 for q in range(n)] for m in masks], dtype=np.int64)  # D x n
+    B = np.array(bit_rows, dtype=np.int64).T  # n x S
+    signs = 1 - 2 * ((Z @ B) % 2)  # D x S
+    sums = np.dot(ints, signs.astype(object))
+    return [Fraction(int(x), den) for x in sums]
+
+
+def gen_large_slack_case(rng, share=0):
+    """2-3 jobs of one or two operations, limit 18..30, 25..60 qubits, at most ~6000 feasible schedules."""
+    while True:
+        shape = rng.choice(["2x1-one-machine", "2x1-one-machine", "3x1-one-machine", "2-jobs-mixed", "3x1-two-machines"])
+        if shape == "2x1-one-machine":
+            jobs = [[("m0", rng.randint(1, 3))], [("m0", rng.randint(1, 3))]]
+            L = rng.randint(20, 30)
+        elif shape == "3x1-one-machine":
+            jobs = [[("m0", rng.randint(1, 2))] for _ in range(3)]
+            L = rng.randint(18, 20)
+        elif shape == "3x1-two-machines":
+            jobs = [[(rng.choice(["m0", "m1"]), rng.randint(1, 3))] for _ in range(3)]
+            L = rng.randint(18, 20)
+        else:
+            jobs = [[("m0", rng.randint(1, 2)), ("m1", rng.randint(1, 2))], [(rng.choice(["m0", "m1"]), rng.randint(1, 3))]]
+            if rng.random() < 0.5:
+                jobs.reverse()
+            L = rng.randint(18, 21)
+        inst = {"name": "inst", "machines": ["m0", "m1"], "jobs": [
+            {"name": f"j{j}", "ops": [{"name": f"o{x}", "job": f"j{j}", "machine": m, "dur": d} for x, (m, d) in enumerate(t)]} for j, t in enumerate(jobs)]}
+        n = expected_qubits(inst, L)
+        if not 25 <= n <= 60:
+            continue
+        while True:
+            P, kind = gen_penalties(rng, share=share)
+            if P["opt"] >= 0.25:
+                break
+        return {"inst": inst, "L": L, "P": P, "shape": "large-slack:" + shape, "penalties": kind, "large_slack": True}
+
+
+def lit_energy_rel(inst, L, P, samples, rel):
+    return f"JEnergyRel {jssp.g_inst(inst)} {g_z(L)} {g_pen(P)} {g_list(g_pair(g_bits(b), g_q(x)) for b, x in samples)} {g_q(rel)}"
+
+
+def examine_large_slack(ctx, batch, case, want, rng, n_samples=5):
+    """Limits far above the schedules compared (see LARGE_SLACK_NOTE): every feasible schedule is enumerated independently,
+    encoded through the implementation's own variables, decoded back through the implementation, and its energy is evaluated
+    exactly from the Hamiltonian's term list.  C02: strict order between makespan classes, minimum only at the optimum;
+    C01: feasible range, optimisation part positive.  Model: exact energies of sampled feasible states (relative tolerance)."""
+    inst, L, P = case["inst"], case["L"], case["P"]
+    summ = {"n": None, "states": 0}
+    ctx.notes["large_slack_family"] = LARGE_SLACK_NOTE
+    J = len(inst["jobs"])
+    W, share = Fraction(P["opt"]), Fraction(P["share"])
+    assert J <= 3 and L <= 30 and W >= Fraction(1, 4), "outside the float-resolution bound this family states"
+    try:
+        enc = impl_encoder(inst, L, P)
+        nq = impl_n_qubits(enc)
+        batch.add(lit_qubits(inst, L, nq), case)
+        n = nq[1]
+        H = enc.get_problem_hamiltonian()
+        vars_ = impl_vars(enc, inst)
+    except Exception as e:  # noqa
+        ctx.violation("oracle", f"hamiltonian-raises-{type(e).__name__}", f"encoder raised {type(e).__name__}: {e}", case)
+        return summ
+    summ["n"] = n
+    if H.paulis.x.any():
+        ctx.violation("oracle", "not-diagonal", "Hamiltonian contains X/Y factors", case)
+        return summ
+    feas = feasible_schedules_dfs(inst, L)
+    if not feas:
+        ctx.tally("large-slack:skipped-too-many-schedules" if feas is None else "large-slack:no-feasible-schedule")
+        return summ
+    rows, strings = [], []
+    for st in feas:
+        b = encode_bitstring(vars_, st, n)
+        if b is None:
+            ctx.violation("oracle", "decode-incomplete", f"feasible schedule {st} (makespan {makespan_of(inst, st)} <= limit {L}) has a start time outside its variable's values", dict(case, schedule=st))
+            return summ
+        strings.append(b)
+        rows.append([int(ch) for ch in reversed(b)])
+    # the implementation's own decoding of these bitstrings must give the schedules back (sampled: all if few)
+    for i in (range(len(feas)) if len(feas) <= 400 else rng.sample(range(len(feas)), 400)):
+        try:
+            flat, valid, mk = impl_decode(enc, inst, strings[i])
+        except Exception as e:  # noqa
+            ctx.violation("oracle", f"decode-raises-{type(e).__name__}", f"translate_result_bitstring({strings[i]!r}) raised {type(e).__name__}: {e}", dict(case, bitstring=strings[i]))
+            continue
+        if flat != feas[i] or not valid or mk != makespan_of(inst, feas[i]):
+            ctx.violation("oracle", "decode-feasibility", f"{strings[i]!r} encodes the feasible schedule {feas[i]} but decodes to {flat} (valid={valid}, makespan={mk})", dict(case, bitstring=strings[i]))
+    energies = exact_energies(exact_terms(H), n, rows)
+    summ["states"] = len(feas)
+    summ["feasible_states"] = len(feas)
+    eps = W * Fraction(1, 10 ** 9)
+    by_mk = {}
+    for st, b, E in zip(feas, strings, energies):
+        by_mk.setdefault(makespan_of(inst, st), []).append((E, b, st))
+        if "C01" in want and in_regime(P):
+            if not (-eps <= E <= W + eps):
+                ctx.violation("oracle", "feasible-out-of-range", f"{b!r} decodes to the feasible schedule {st}; its exact energy {float(E)} is outside [0, {float(W)}]", dict(case, bitstring=b))
+            elif share < 1 and not E > 0:
+                ctx.violation("oracle", "optimisation-part-not-positive", f"{b!r} decodes to the feasible schedule {st}; its exact energy {float(E)} is not > 0 although the makespan share is > 0", dict(case, bitstring=b))
+    mks = sorted(by_mk)
+    if "C02" in want and in_regime(P) and share == 0:
+        for m1, m2 in zip(mks, mks[1:]):
+            hi, lo = max(by_mk[m1]), min(by_mk[m2])
+            if not hi[0] < lo[0]:
+                ctx.violation("oracle", "makespan-order", f"{hi[1]!r} (schedule {hi[2]}, makespan {m1}, exact energy {float(hi[0])!r}) is not strictly below {lo[1]!r} (schedule {lo[2]}, makespan {m2}, exact energy {float(lo[0])!r}); limit {L}", dict(case, bitstring=hi[1], bitstring_longer=lo[1]))
+                break
+            ctx.tally("makespan-order:pairs-of-classes")
+        Emin = min(energies)
+        for st, b, E in zip(feas, strings, energies):
+            if E == Emin and makespan_of(inst, st) != mks[0]:
+                ctx.violation("oracle", "ground-state", f"the minimum energy over the feasible states ({float(Emin)!r}) is attained by {b!r} = schedule {st} with makespan {makespan_of(inst, st)}; the optimum is {mks[0]}; limit {L}", dict(case, bitstring=b))
+                break
+        ctx.tally("ground-state:checked-over-feasible-states")
+    # model: exact energies of sampled feasible states, tolerance relative to each state's own energy
+    picks = []
+    for m in mks[:2]:
+        picks.append(min(by_mk[m])[1])
+    picks.append(max(by_mk[mks[-1]])[1])
+    while len(picks) < n_samples:
+        picks.append(rng.choice(strings))
+    picks = list(dict.fromkeys(picks))
+    e_of = dict(zip(strings, energies))
+    batch.add(lit_energy_rel(inst, L, P, [(b, e_of[b]) for b in picks], Fraction(1, 10 ** 9)), dict(case, bitstrings=picks))
+    for b in picks[:2]:
+        batch.add(lit_decode(inst, L, b, ("ok", feas[strings.index(b)])), dict(case, bitstring=b))
+    return summ
+
+
+def examiner(case):
+    return examine_large_slack if case.get("large_slack") else examine_low_energy if case.get("scan") else examine
